@@ -398,8 +398,12 @@ fn encode_subframe(
             Verbatim::count_bits_from_metadata(samples.len(), bits_per_sample as usize);
 
         let too_short = samples.len() < MIN_BLOCK_SIZE_FOR_PREDICTION;
+        // The order selection in `fixed_lpc` may accept a candidate based on an
+        // entropy estimate (or on the residual bits alone); keep it only if its
+        // actual size beats the verbatim baseline.
         let fixed = if !too_short && config.use_fixed {
             fixed_lpc(config, samples, bits_per_sample, baseline_bits)
+                .filter(|x| x.count_bits() < baseline_bits)
         } else {
             None
         };
